@@ -4,8 +4,9 @@ import (
 	"bytes"
 	"compress/gzip"
 	"context"
-	"io"
 	"fmt"
+	"io"
+	"os"
 	"sort"
 	"strings"
 	"sync"
@@ -29,16 +30,27 @@ type recvStore struct {
 	failLoads int
 	failLists int
 	loads     int
+	// lastInjected[instance]: the last failed load of that instance was an injected failure
+	lastInjected map[string]bool
 }
 
 func (s *recvStore) Load(ctx context.Context, name string) ([]byte, error) {
 	s.mu.Lock()
 	s.loads++
+	inst := ""
+	if ni, err := snapshot.ParseName(name); err == nil {
+		inst = ni.InstanceID
+	}
+	if s.lastInjected == nil {
+		s.lastInjected = map[string]bool{}
+	}
 	if s.failLoads > 0 {
 		s.failLoads--
+		s.lastInjected[inst] = true
 		s.mu.Unlock()
 		return nil, errInjected
 	}
+	s.lastInjected[inst] = false
 	s.mu.Unlock()
 	return s.Interface.Load(ctx, name)
 }
@@ -62,6 +74,57 @@ type recvImpl struct {
 	held   *snapshot.Update
 	heldID string
 	seen   map[string]string
+	// downloaders parked in their back-off after a load that failed for good (blob gone)
+	pmu    sync.Mutex
+	parked map[string]bool
+	wake   chan struct{}
+}
+
+// backoff is the receiver's VerifBackoff hook: after an injected (transient) failure the
+// downloader retries at once; after a real one (the blob is gone) it stays parked until the next
+// settle, as in the model's quiesce ("sleeping downloaders retry first").
+func (x *recvImpl) backoff(ctx context.Context, inst string) {
+	x.st.mu.Lock()
+	inj := x.st.lastInjected[inst]
+	x.st.mu.Unlock()
+	if inj {
+		return
+	}
+	x.pmu.Lock()
+	x.parked[inst] = true
+	ch := x.wake
+	x.pmu.Unlock()
+	select {
+	case <-ch:
+	case <-ctx.Done():
+	}
+}
+
+func (x *recvImpl) release() {
+	x.pmu.Lock()
+	x.parked = map[string]bool{}
+	close(x.wake)
+	x.wake = make(chan struct{})
+	x.pmu.Unlock()
+}
+
+// settled: every downloader is waiting for a signal with nothing to do, parked after a load
+// that failed for good, or blocked on a token that nobody in motion is going to release.
+func (x *recvImpl) settled() bool {
+	dlF, _, dcF, _ := x.r.VerifFree()
+	x.pmu.Lock()
+	defer x.pmu.Unlock()
+	for inst, d := range x.r.VerifDownloaders() {
+		switch {
+		case d[0] == "idle" && d[1] == "uptodate":
+		case d[0] == "backoff" && x.parked[inst]:
+		case d[0] == "wantDl" && dlF == 0:
+		case d[0] == "wantDc" && dcF == 0:
+		default:
+			return false
+		}
+	}
+	return true
 }
 
 var rcv *recvImpl
@@ -135,30 +198,32 @@ func (x *recvImpl) stateString() string {
 	return fmt.Sprintf("dl=%d/%d dc=%d/%d pending=%s corrupt=%s seen=%s held=%s", dlF, dlL, dcF, dcL, j(pend), j(cor), j(seen), held)
 }
 
-// settle waits until the downloaders have done all they can: every downloader idle, or the
-// observable state unchanged for a while (blocked on a token / retrying a failing load).
+// settle lets parked downloaders retry and waits until the downloaders have done all they can
+// (see settled); the condition must hold on three consecutive polls, because a token-blocked
+// downloader can be woken by one that has just released.
 func (x *recvImpl) settle() {
+	x.release()
 	deadline := time.Now().Add(2 * time.Second)
-	last := ""
-	stableSince := time.Now()
+	ok := 0
 	for time.Now().Before(deadline) {
-		x.st.mu.Lock()
-		pendingFails := x.st.failLoads
-		x.st.mu.Unlock()
-		cur := x.stateString()
-		if cur != last {
-			last = cur
-			stableSince = time.Now()
+		if x.settled() {
+			ok++
+			if ok >= 3 {
+				return
+			}
+		} else {
+			ok = 0
 		}
-		if pendingFails == 0 && x.r.VerifIdle() && time.Since(stableSince) > 300*time.Microsecond {
-			return
-		}
-		if pendingFails == 0 && time.Since(stableSince) > 15*time.Millisecond {
-			return
-		}
-		time.Sleep(100 * time.Microsecond)
+		time.Sleep(50 * time.Microsecond)
+	}
+	recvSettleTimeouts++
+	if os.Getenv("VERIF_DEBUG") != "" {
+		dlF, _, dcF, _ := x.r.VerifFree()
+		fmt.Fprintln(os.Stderr, "settle timeout:", x.r.VerifDownloaders(), "parked", x.parked, "dlFree", dlF, "dcFree", dcF)
 	}
 }
+
+var recvSettleTimeouts int
 
 func init() {
 	implOps["recv.new"] = func(a []string) string {
@@ -172,7 +237,8 @@ func init() {
 		c.StorageRetryInterval = 200 * time.Microsecond
 		c.StoragePollInterval = time.Hour
 		ctx, cancel := context.WithCancel(context.Background())
-		rcv = &recvImpl{st: st, ctx: ctx, cancel: cancel}
+		rcv = &recvImpl{st: st, ctx: ctx, cancel: cancel, parked: map[string]bool{}, wake: make(chan struct{})}
+		receiver.VerifBackoff = rcv.backoff
 		rcv.r = receiver.New(st, c, "db", logrus.StandardLogger(), a[0], events.New(), hooks.New())
 		return "ok"
 	}
@@ -215,11 +281,12 @@ func init() {
 		return "ok"
 	}
 	implOps["recv.next"] = func(a []string) string {
+		// as in the model: close what is held, let the downloaders do all they can, then Next()
 		if rcv.held != nil {
 			rcv.held.Close()
 			rcv.held = nil
-			rcv.settle()
 		}
+		rcv.settle()
 		inst, u := rcv.r.Next()
 		if inst == "" {
 			rewrittenLine = "recv.next -"
